@@ -18,7 +18,7 @@ func init() {
 		Explanation: "Decides the structural clauses behind 'no API-reachable object state can crash the controllers': (R9.1) every index into the steps / batches of a Rollout or BatchRelease in the controllers is enumerated and classified by the source of its index: a user-editable cursor (nextStepIndex) must carry a lower and an upper bound fact at the index site; controller-owned cursors are discharged by named protocol rules that are themselves checked here — step cursor writers (C02 R2.1i) together with the validators' step-count immutability, batchPartition provenance (C01 R1.3), and the plan-unhealthy restart that precedes execution; " +
 			"(R9.2) validator/controller contract, for both the v1beta1 and the v1alpha1 validator (sibling agreement): empty steps, nil replicas, both/neither strategy and a Gateway ref without httpRouteName are errors, each provider is validated independently, the update validator forbids changes of workload reference, traffic routing, style and step count while Progressing/Terminating, and the conflict check rejects any other Rollout with the same workload reference without further exemptions; " +
 			"(R9.3) registry agreement for explicit panics: every concrete type the workload factory can hand to the parse helpers is covered by the cases of each helper's type switch, or excluded by a kind guard at the feeding call site; UpdateFinalizer is only called with constant operations.",
-		NotDecided: "nil dereferences of objects built by dependencies, runtime panics inside libraries, map-nil writes in general; only the anchored packages' user-data sites are enumerated.",
+		NotDecided:  "nil dereferences of objects built by dependencies, runtime panics inside libraries, map-nil writes in general; only the anchored packages' user-data sites are enumerated.",
 		Assumptions: []string{"BatchRelease objects are written by the Rollout controller only (their cursors are not user-editable fields)"},
 	})
 }
@@ -372,7 +372,9 @@ func runC09(c *Ctx) {
 		}
 		if fcall != nil {
 			reach, _ := CanReach(Entry(cs.Caller), func(in ssa.Instruction) bool { return in == fcall }, ReachOpts{CutEdge: func(b *ssa.BasicBlock, k int) bool {
-				isRS := func(t *Term) bool { return t.Any(func(x *Term) bool { return x.Op == "global" && strings.HasSuffix(x.Name, "ControllerKindRS") }) }
+				isRS := func(t *Term) bool {
+					return t.Any(func(x *Term) bool { return x.Op == "global" && strings.HasSuffix(x.Name, "ControllerKindRS") })
+				}
 				return EdgeFactMatches(b, k, FCmp("!=", MField("Kind"), isRS)) || EdgeFactMatches(b, k, FCmp("!=", MField("Group"), isRS))
 			}})
 			if !reach {
